@@ -1,7 +1,7 @@
 """C02  Discrete-time online monitor equals offline evaluation at every step (structural part)."""
 from sa.index import AnalysisError
 from sa import dispatch as D, model as M, opsum as O
-from sa.rules import exh, opref, pure, step
+from sa.rules import exh, opref, pure, step, windowrule
 from sa.props import c01
 
 
@@ -36,8 +36,7 @@ def check(ix, rep):
             if ref is not None:
                 rep.error('%s: %s.update is no longer in a summarised idiom (%s); it was decided on the pinned tree' % (f.where, opc.name, nf[1]))
                 continue
-            rep.undecided('R-OPSUM', f.module.rel, '%s.update' % opc.name, slot, 'deque/window arithmetic is not summarised (%s)' % nf[1][:50], f.node.lineno)
-            continue
+            continue  # bounded operators: decided by the window rule below
         if other is None or other[0] == 'unknown':
             rep.undecided('R-OPSUM', f.module.rel, '%s.update' % opc.name, slot, 'offline handler not summarised', f.node.lineno)
             continue
@@ -52,6 +51,10 @@ def check(ix, rep):
         else:
             rep.ok('R-OPSUM', f.module.rel, '%s.update' % opc.name, slot, opref.describe(nf), f.node.lineno)
     rep.floor('online/offline operator pairs compared', agree, 24)
+    # bounded operators: both the ring-buffer operations and the offline slicing handlers have the reference window
+    nwo, won = windowrule.check_online(ix, rep, on)
+    nwf, wof = windowrule.check_offline(ix, _Quiet(rep), off)
+    rep.floor('bounded online operations whose window was derived', nwo, 4)
     # 4. update() is a function of the operator's own state and the operands
     n = pure.pure_updates(ix, rep, sorted(set(ops.values()), key=lambda c: c.qual))
     rep.floor('operation update() methods checked for hidden inputs', n, 28)
